@@ -25,6 +25,7 @@ func init() {
 	register(&core.Rule{ID: "R-TERMINAL", Props: []string{"C01", "C11"}, Doc: "truth table of (*Item).HasWork over every ItemState constant: false exactly on {Completed, Seen, Failed}; the set of constants is the reviewed eight", Run: ruleTerminal})
 	register(&core.Rule{ID: "R-MARK", Props: []string{"C01", "C11"}, Doc: "markCompleted: only status store writes ItemCompleted, guarded by status∈{GotChildren,GotRedirected} and (no children or no child HasWork), after recursing into every child; allChildrenCompleted returns true only if no child HasWork; CompleteAndCheck returns !HasWork() after markCompleted", Run: ruleMark})
 	register(&core.Rule{ID: "R-LEVEL", Props: []string{"C01"}, Doc: "preprocess, archive, postprocess and both SeencheckItem obtain their work list from X.GetNodesAtLevel(X.GetMaxDepth()) with the same receiver X", Run: ruleLevel})
+	register(&core.Rule{ID: "R-PRE-EXITS", Props: []string{"C01"}, Doc: "preprocess returns only (a) after the request-building loop covered the whole work list, (b) when a work list is empty, or (c) when the element at hand is the seed itself (IsSeed, or neither IsChild nor IsRedirection; also through a helper predicate whose true-returns are so guarded); the whole seed is marked Completed/Failed only under `len(list)==0`", Run: rulePreExits})
 	register(&core.Rule{ID: "R-STATUS-WRITERS", Props: []string{"C01", "C11"}, Doc: "Item.status is stored only in SetStatus/AddChild/markCompleted/NewItem; SetStatus(const) call sites stay within the per-package transition table", Run: ruleStatusWriters})
 }
 
@@ -1043,3 +1044,175 @@ func sumInt(m map[string]int) int {
 }
 
 var _ = types.Typ
+
+// ---- R-PRE-EXITS ----------------------------------------------------------------------------------------------
+// preprocess hands the seed on with part of its work list untouched only when that is sound.
+
+// isSeedGuarded: `target` runs only when elem is the seed itself — elem.IsSeed() is true, or elem.IsChild() and
+// elem.IsRedirection() are both false — or, through a helper, only when a module predicate called with elem
+// returned true and that predicate can return true only under the same condition on its parameter.
+func isSeedGuarded(fn *ssa.Function, target ssa.Instruction, sameNode func(ssa.Value) bool, depth int) bool {
+	item := "(*" + pkgModels + ".Item)."
+	onRecv := func(name string) func(ir.Atom) bool {
+		return func(a ir.Atom) bool {
+			c := ir.BoolCallAtom(a, item+name)
+			return c != nil && sameNode(ir.Recv(c.Common()))
+		}
+	}
+	from := ir.Entry(fn)
+	if _, ok := ir.GuardedBy(fn, from, target, true, onRecv("IsSeed")); ok {
+		return true
+	}
+	_, noChild := ir.GuardedBy(fn, from, target, false, onRecv("IsChild"))
+	_, noRedir := ir.GuardedBy(fn, from, target, false, onRecv("IsRedirection"))
+	if noChild && noRedir {
+		return true
+	}
+	if depth >= 2 {
+		return false
+	}
+	// helper predicate
+	for _, ii := range ir.Ifs(fn) {
+		c, ok := ii.Atom.V.(*ssa.Call)
+		if ii.Atom.V == nil || !ok {
+			continue
+		}
+		h := ir.CalleeOf(c.Common())
+		if h == nil || !core.InModule(h) || h.Blocks == nil || h.Signature.Results().Len() != 1 {
+			continue
+		}
+		argIdx := -1
+		for i, a := range c.Call.Args {
+			if sameNode(a) {
+				argIdx = i
+			}
+		}
+		if argIdx < 0 || !ir.OnlyVia(from, target, ii.If.Block(), ii.EdgeWhen(true)) {
+			continue
+		}
+		par := h.Params[argIdx]
+		okAll := true
+		for _, ret := range ir.Returns(h) {
+			rv := ir.RetVal(ret, 0)
+			if k, isC := rv.(*ssa.Const); isC && k.Value != nil && !constant.BoolVal(k.Value) {
+				continue // returns false
+			}
+			if !isSeedGuarded(h, ret, func(v ssa.Value) bool { return resolveParam(v, 0) == par }, depth+1) {
+				okAll = false
+			}
+		}
+		if okAll {
+			return true
+		}
+	}
+	return false
+}
+
+func isItemListLenZero(a ir.Atom) bool {
+	if a.V != nil || a.Op != token.EQL {
+		return false
+	}
+	lenOfItems := func(v ssa.Value) bool {
+		c, ok := v.(*ssa.Call)
+		if !ok || ir.CallName(c.Common()) != "builtin.len" {
+			return false
+		}
+		return strings.HasSuffix(c.Call.Args[0].Type().String(), "[]*"+pkgModels+".Item")
+	}
+	isZero := func(v ssa.Value) bool { n, ok := ir.ConstInt(v); return ok && n == 0 }
+	return (lenOfItems(a.X) && isZero(a.Y)) || (lenOfItems(a.Y) && isZero(a.X))
+}
+
+func rulePreExits(r *core.Reporter) {
+	p := r.P
+	states, _ := itemStates(p)
+	fn := p.Func(rel(pkgPre), "preprocess")
+	if fn == nil {
+		r.Undecided("preprocessor.preprocess", "", "anchor not found")
+		return
+	}
+	r.Analysed(fn)
+	// the request-building loop: the loop around SetStatus(ItemPreProcessed)
+	var mark ssa.Instruction
+	allInstrs(fn, func(in ssa.Instruction) {
+		if _, v, ok := setStatusConst(in); ok && v == states["ItemPreProcessed"] {
+			mark = in
+		}
+	})
+	if mark == nil {
+		r.Undecided("preprocess/final-loop", fnPos(p, fn), "no SetStatus(ItemPreProcessed) found")
+		return
+	}
+	loop, okL := loopAround(fn, mark)
+	if !okL || !loopCoversAll(fn, mark) {
+		r.Violated("preprocess/final-loop", p.InstrPos(mark), "requests are not built in a loop over the whole work list")
+		return
+	}
+	isElem := func(v ssa.Value) bool { _, _, e := elemLoad(ir.Strip(v)); return e }
+	rets := ir.Returns(fn)
+	r.Floor("returns of preprocess", len(rets), 5)
+	counts := map[string]int{}
+	bad := 0
+	for _, ret := range rets {
+		switch {
+		case !ir.ReachableWithoutEdge(ir.Entry(fn), ret, loop.If.Block(), loop.EdgeWhen(false)):
+			counts["after the request loop"]++
+		case func() bool {
+			_, ok := ir.GuardedBy(fn, ir.Entry(fn), ret, true, isItemListLenZero)
+			return ok
+		}():
+			counts["work list empty"]++
+		case isSeedGuarded(fn, ret, isElem, 0):
+			counts["the element is the seed itself"]++
+		default:
+			bad++
+			r.Violated(fmt.Sprintf("preprocess/early-return#%d", bad), p.InstrPos(ret), "preprocess can return here with other nodes of the work list untouched: only `work list empty`, `the element is the seed itself` (IsSeed, or neither IsChild nor IsRedirection) and the end of the request loop justify a return")
+		}
+	}
+	if bad == 0 {
+		r.Held("preprocess/early-returns", len(rets), "every return is justified: %v", counts)
+	}
+	// whole-seed terminal marks in the package
+	n := 0
+	for _, f := range p.FuncsInPkg(rel(pkgPre)) {
+		for _, ff := range withAnon(f) {
+			allInstrs(ff, func(in ssa.Instruction) {
+				recv, v, ok := setStatusConst(in)
+				if !ok || (v != states["ItemCompleted"] && v != states["ItemFailed"]) || isElem(recv) {
+					return
+				}
+				par := resolveParam(recv, 0)
+				if par == nil {
+					return // R-STATUS-WRITERS/SetStatus-target decides unknown receivers
+				}
+				// a helper's parameter that only ever receives work-list elements is an element
+				if par.Parent() != fn {
+					allElem, sites := true, 0
+					for _, g := range p.FuncsInPkg(rel(pkgPre)) {
+						for _, gg := range withAnon(g) {
+							allInstrs(gg, func(x ssa.Instruction) {
+								if c, isC := x.(*ssa.Call); isC && ir.CalleeOf(c.Common()) == par.Parent() {
+									sites++
+									if idx := paramIndex(par); idx < 0 || idx >= len(c.Call.Args) || !isElem(c.Call.Args[idx]) {
+										allElem = false
+									}
+								}
+							})
+						}
+					}
+					if sites > 0 && allElem {
+						return
+					}
+				}
+				n++
+				key := fmt.Sprintf("seed-terminal/%s#%d", core.FuncName(ff), n)
+				if _, g := ir.GuardedBy(ff, ir.Entry(ff), in, true, isItemListLenZero); g {
+					r.HeldAt(key, p.InstrPos(in), 1, "the whole seed is closed only when the work list is empty")
+				} else {
+					r.Violated(key, p.InstrPos(in), "the whole seed is marked terminal without the work list being empty: other nodes of the level may still be Fresh, yet the seed will be reported finished")
+				}
+			})
+		}
+	}
+	r.Floor("whole-seed terminal marks in the preprocessor", n, 2)
+}
